@@ -117,7 +117,9 @@ class Gen:
         target = "/" + topic + ("?" + "&".join(q) if q else "")
         body = self.body()
         i = self.add({"op": "http", "method": "POST", "target": target, "body": body, "meta": self.meta_raw(),
-                      "chunked": (self.r.choice([None, None, 1, 7, 4096]) if len(body) <= 400 else self.r.choice([None, 4096, 1000])) if body else None,
+                      # an empty body too may come with chunked framing (just the terminating chunk: what a streaming client sends
+                      # when it had nothing to send) - still "without a body": no hash
+                      "chunked": (self.r.choice([None, None, 1, 7, 4096]) if len(body) <= 400 else self.r.choice([None, 4096, 1000])),
                       "read_ms": 4000})
         self.frames.append(i)
         if body:
@@ -179,7 +181,11 @@ class Gen:
         t = self.r.choice(["t", "a"])
         ca = "@{%d}" % self.r.choice(self.ctxs)
         name = "bg%d" % len(self.ops)
-        self.add({"op": "http_bg", "name": name, "method": "GET", "target": "/head/%s?follow=true&context=%s" % (t, ca)})
+        # the follower's own context: a registered one, or the default (zero) context - spelled out or left out; the
+        # default context is a context like any other: nothing of another one comes through
+        fc = self.r.choice([ca, ca, None, "0" * 25])
+        self.add({"op": "http_bg", "name": name, "method": "GET",
+                  "target": "/head/%s?follow=true" % t + ("&context=" + fc if fc else "")})
         for _ in range(self.r.randint(1, 3)):
             c = self.r.choice([None, ca, ca])
             tt = self.r.choice([t, t, "other", t + "x", t + ".y", t[:-1] or "z"])   # prefix-related topics must not leak in
@@ -218,7 +224,7 @@ class Gen:
             body = self.body()
             # tiny chunks only for small bodies: tens of thousands of 3-byte chunks take longer than the read timeout on a
             # loaded machine and would be mistaken for a hung connection
-            ch = (self.r.choice([None, 3]) if len(body) <= 2000 else self.r.choice([None, 4096, 1000])) if body else None
+            ch = (self.r.choice([None, 3]) if len(body) <= 2000 else self.r.choice([None, 4096, 1000]))
             self.add({"op": "http", "method": "POST", "target": "/cas", "body": body, "chunked": ch,
                       "read_ms": 4000 if len(body) > 2000 else 1500})
             if body:
